@@ -699,6 +699,10 @@ impl Scenario for C01 {
         }
     }
 
+    fn sweep_targets(&self, ctx: &Ctx) -> (Vec<(Address, &'static str, &'static [&'static str])>, Vec<Address>) {
+        (vec![(ctx.gw.clone(), "/repo/contracts/axelar-gateway/src", &axmc::inventory::GATEWAY_KNOWN[..])], vec![ctx.gw.clone()])
+    }
+
     fn must_succeed_kinds(&self) -> Vec<&'static str> {
         vec!["vector-approve", "vector-validate", "batch"]
     }
